@@ -4,7 +4,8 @@
 (* of trace.ndjson is one request to one of two holders "g" and "c" --     *)
 (* act = "put" (update API), "null" (update API without a schedule),       *)
 (* "yaml" / "json" (restart from a configuration document decoded on top   *)
-(* of the defaults) -- with a random document (any zone of the host,       *)
+(* of the defaults), "yamlnone" (such a document without a schedule: the   *)
+(* empty schedule) -- with a random document (any zone of the host,        *)
 (* random ranges in ms + ns, valid or not), followed by reading back BOTH  *)
 (* holders and asking both Contains at random instants.  Logged: h, act,   *)
 (* the document (tz, w, wn), the reply ok, and per holder what was read    *)
@@ -39,11 +40,12 @@ SecWeek(w) == [x \in 0 .. 6 |-> [s |-> w[x].s \div 1000, e |-> w[x].e \div 1000]
 ProbesOk(i, h, val) ==
     \A j \in DOMAIN ObsOf(i, h).probes :
         LET p == ObsOf(i, h).probes[j] IN
-        RS!Contains(SecWeek(val.w), [base |-> p[2], trans |-> <<>>], [s |-> p[1], n |-> 0]) <=> (p[3] = 1)
+        /\ p[3] \in {0, 1}               \* 2: the question was not answered at all (panic)
+        /\ RS!Contains(SecWeek(val.w), [base |-> p[2], trans |-> <<>>], [s |-> p[1], n |-> 0]) <=> (p[3] = 1)
 
 \* What the request may do to the holder it is addressed to.
 Outcomes(i) ==
-    IF Trace[i].act = "null" THEN {[ok |-> TRUE, val |-> Boot]}
+    IF Trace[i].act \in {"null", "yamlnone"} THEN {[ok |-> TRUE, val |-> Boot]}
     ELSE MS!DecodeOutcomes(live[Trace[i].h], Doc(i))
 
 \* The observed step is one of the admissible outcomes, read back unchanged,
